@@ -7,6 +7,7 @@ generator created outside the loops and it is the only provenance of the id colu
 is strictly increasing (C02.4); every edge gets its topology's name / the naming callback of the same motif
 type (C02.5); the converter reads the three columns through one zip (C02.6)."""
 import ast
+import re
 
 from gcmstatic import astx, rules, tm
 from gcmstatic.astx import Scope, txt, pat, match
@@ -220,6 +221,7 @@ def run(ctx):
                 ctx.notes.append("C02.1 custom generator: Len(naming callback result) = Len(build callback result) is the documented callback contract (assumed)")
 
             # ---- C02.3
+            loop_body_override = None
             nexts = [n for n in astx.walk_fn(fn.node) if isinstance(n, ast.Call) and txt(n.func) == "next" and n.args]
             gens_defs = [(nm, sites[0]) for nm, sites in g.sc.assigns.items() if len(sites) == 1 and isinstance(sites[0].value, ast.Call)
                          and txt(sites[0].value.func) == "self.infinite_sequence"]
@@ -239,7 +241,32 @@ def run(ctx):
                     o3.violated(fn, gdef, f"`{gname} = self.infinite_sequence()` is inside a loop: ids restart at 0 and distinct motifs share ids")
                 else:
                     o3.holds(fn, gdef, "one id generator, created outside all loops")
-                if len(id_nexts) != 1:
+                if len(id_nexts) == 2:
+                    # one draw in each branch of an if / else that is a statement of the motif iteration: one draw per path
+                    ifs_ = [s_ for s_ in loop.body if isinstance(s_, ast.If) and s_.orelse]
+                    for i_ in ifs_:
+                        sides = [g.par.branch_of(n, i_) if g.par.inside(n, i_) else None for n in id_nexts]
+                        if sorted(x for x in sides if x) == ["body", "orelse"] and all(g.par.loops_of(n)[0] is loop and not g.par.comps_of(n) for n in id_nexts) \
+                                and all(any(g.par.stmt_of(n) is s_ for s_ in (i_.body if sd == "body" else i_.orelse)) for n, sd in zip(id_nexts, sides)):
+                            o3.holds(fn, id_nexts[1], "one unconditional next(gen) in each branch of the motif iteration's if / else")
+                            id_nexts = [id_nexts[0]]
+                            loop_body_override = list(i_.body if sides[0] == "body" else i_.orelse)
+                            break
+                if len(id_nexts) > 1:
+                    # ids only have to be DISTINCT per motif instance: a draw outside the motif iteration whose value is
+                    # overwritten by the per-motif draw merely leaves a gap in the numbering
+                    per_motif = [n for n in id_nexts if g.par.loops_of(n) and g.par.loops_of(n)[0] is loop and any(g.par.stmt_of(n) is s_ for s_ in loop.body)]
+                    others = [n for n in id_nexts if n not in per_motif]
+                    if len(per_motif) == 1 and all(not g.par.inside(n, loop) for n in others):
+                        for n in others:
+                            o3.holds(fn, n, "an extra draw outside the motif iteration only leaves a gap in the ids (they stay distinct)")
+                        id_nexts = per_motif
+                    elif len(per_motif) == 1:
+                        o3.undecided(f"{len(id_nexts)} draws from the id generator, some nested inside the motif iteration", fn, others[0])
+                        id_nexts = None
+                if id_nexts is None:
+                    pass
+                elif len(id_nexts) != 1:
                     if not id_nexts:
                         o3.violated(fn, loop, "no id is drawn per motif")
                     else:
@@ -256,7 +283,7 @@ def run(ctx):
                             o3.violated(fn, nx_, "an id is drawn inside a nested loop (per edge), not once per motif instance")
                         else:
                             o3.violated(fn, nx_, "the id is drawn outside the motif iteration: several motif instances share one id")
-                    elif not any(st is s for s in loop.body):
+                    elif not any(st is s for s in (loop_body_override or loop.body)):
                         o3.violated(fn, nx_, "the id draw is conditional inside the motif iteration")
                     else:
                         o3.holds(fn, nx_, "one unconditional next(gen) per motif iteration")
@@ -353,6 +380,8 @@ def run(ctx):
                 c = _col_of(g, n)
                 if c and c[0] == "edge_list":
                     arg = c[2]
+                    if isinstance(arg, ast.Name) and len(g.sc.assigns.get(arg.id, [])) == 1:
+                        arg = getattr(g.sc.assigns[arg.id][0], "value", arg)         # `edges = [es]` bound once, on this branch
                     if (c[1] == "extend" and isinstance(arg, ast.List) and [txt(e) for e in arg.elts] == [es]) or (c[1] == "append" and txt(arg) == es):
                         wraps.append(n)
         if not wraps:
@@ -388,6 +417,14 @@ def run(ctx):
                     is_scalar = "int" in kinds and not is_container
                     if (is_container and not truth) or (is_scalar and truth):
                         has_kind = True
+                    else:
+                        unknown.append(t)
+                elif isinstance(c, ast.Call) and txt(c.func) == "isinstance" and len(c.args) == 2 and txt(c.args[0]) == es:
+                    kinds = txt(c.args[1])
+                    if truth and ("Sequence" in kinds or ("list" in kinds and "tuple" in kinds)):
+                        pass        # a bare edge (a tuple) and a list / tuple of two edges both are sequences: says nothing
+                    elif (not truth) and all(k_ in ("str", "bytes", "bytearray") for k_ in re.findall(r"[A-Za-z_]+", kinds)):
+                        pass        # neither of them is a string
                     else:
                         unknown.append(t)
                 elif isinstance(c, ast.Compare) and t.replace(" ", "").startswith(f"type({es}[0])"):
@@ -478,6 +515,21 @@ def run(ctx):
             for n in astx.walk_fn(f.node):
                 if isinstance(n, ast.Call) and isinstance(n.func, ast.Attribute) and n.func.attr in astx.MUTATOR_METHODS \
                         and isinstance(n.func.value, ast.Attribute) and n.func.value.attr in names and txt(n.func.value.value) in recv:
+                    r_ = txt(n.func.value.value)
+                    col_ = n.func.value.attr.lstrip("_")
+                    uses = [x for x in astx.walk_fn(f.node) if isinstance(x, ast.Name) and x.id == r_ and isinstance(x.ctx, ast.Load)]
+                    fpar = astx.Parents(f.node)
+                    def _only_converted(x):
+                        p_ = fpar.parent(x)
+                        if isinstance(p_, ast.Attribute):
+                            return True         # a column / field access
+                        return isinstance(p_, ast.Call) and txt(p_.func) in ("EdgeListToNetwork.convert", "EdgeListToNetwork().convert") and x in p_.args
+                    if n.func.attr in ("append", "extend") and col_ in ("topologies", "motif_id") and r_ not in f.params and all(_only_converted(x) for x in uses):
+                        # surplus entries at the END of the name / id column of a list that only ever reaches the converter:
+                        # the converter pairs the columns (zip), so whether anything observable changes is not decided here
+                        o.undecided(f"`{txt(n)}` grows one column of a local edge list that is only handed to the converter afterwards: the columns of that object lose alignment, "
+                                    "whether any emitted edge list or network shows it is not decided", f, n)
+                        continue
                     bad += 1
                     o.violated(f, n, f"`{txt(n)}` changes one column of an edge list outside the generators: columns lose alignment")
                 if isinstance(n, (ast.Assign, ast.AugAssign)):
